@@ -45,6 +45,9 @@ def check_framing(model, col, rule):
         from ..sem import expand_helpers as _xh07
 
         f = _xh07(model, cls, cls.methods["WriteTo"])
+        from ..sem import expand_module_helpers as _xmh07
+
+        f = _xmh07(model, WA, f, skip=("v_", "Write", "Pack"))  # a module-level framing helper (`_WriteSizePrefixed`) read in place
         t = Terms(model, f)
         outp = f.args.args[1].arg
         out = t.out(outp)
